@@ -5,5 +5,6 @@ CONSTANTS
   HookNames = {"a", "b"}
   Groups = {"", "g1"}
   TwoCtx = TRUE
-INVARIANTS KeepsOrder OnlySameHookAndType NoGroupRun Emit
+  WithStop = FALSE
+INVARIANTS KeepsOrder OnlySameHookAndType NoGroupRun StopEndsTheRun Emit
 CHECK_DEADLOCK FALSE
